@@ -75,7 +75,10 @@ pub fn draw_plan(rng: &mut Rng, index: u64, tier: Tier, stats: &mut Stats) -> Ex
         let h = if volume || big { 1 } else { 1 + rng.usize(3) };
         let mut items = vec![];
         for k in 0..h {
-            let n = if volume { 100_000 } else { *rng.pick(&[0usize, 1, 2, 3, 5, 10, 50]) };
+            // every 97th execution has one compilation with some thousand ids (an id whose text is built
+            // from two variable-width numbers only collides after many blocks)
+            let many = index % 97 == 5 && t == 0 && k == 0;
+            let n = if volume { 100_000 } else if many { 6_000 } else { *rng.pick(&[0usize, 1, 2, 3, 5, 10, 50]) };
             let limits: Vec<u64> = (0..rng.usize(6)).map(|_| draw_limit(rng)).collect();
             let mut it = Item::simple(&format!("ids{n}-t{t}-{k}"), &id_program_ordered(n, &limits, rng.chance(1, 2)));
             it.fmt = Fmt { compressed: rng.chance(1, 3), precision: *rng.pick(&[0usize, 5, 10, 20]) };
